@@ -329,7 +329,7 @@ func batteryAll(v *ds.VMValue) []batteryRes {
 func init() {
 	subcmds["codec-exec"] = func(args []string) int {
 		fs := newFlags("codec-exec")
-		in := fs.String("in", "", "docs prefix (<prefix>.0, .1) or ndjson of {json}")
+		in := fs.String("in", "", "docs prefix (<prefix>.0, .1, .2) or ndjson of {json}")
 		out := fs.String("out", "", "events ndjson")
 		progress := fs.String("progress", "", "file receiving the document being processed (crash attribution; meaningful with -workers 1)")
 		workers := fs.Int("workers", 12, "parallel workers")
@@ -414,7 +414,7 @@ func init() {
 				}
 			})
 		} else {
-			for k := 0; k <= 1; k++ {
+			for k := 0; k <= 2; k++ {
 				f := fmt.Sprintf("%s.%d", *in, k)
 				if _, err := os.Stat(f); err != nil {
 					continue
